@@ -135,6 +135,10 @@ CO_ERR COSdoResponse(CO_SDO *srv)
     } else if (srv->Blk.State == BLK_DNWAIT) {
         if ((cmd & 0xE3) == 0xC1) {
             result = COSdoEndDownloadBlock(srv);
+        } else if (srv->Buf.Num > 0) {
+            /* last segment received: only the end request may follow */
+            COSdoAbort(srv, CO_SDO_ERR_CMD);
+            COSdoAbortReq(srv);
         } else {
             srv->Blk.State = BLK_DOWNLOAD;
             result = COSdoDownloadBlock(srv);
